@@ -115,10 +115,23 @@ def model_predictions(ctx, strong, stories):
     pre = "From Ink.Data Require Import Types.\nFrom Ink.Spec Require Import RcRun.\n"
     b = "true" if strong else "false"
     exprs = [f"run_leak {b} {vlib.json2coq(json.loads(stories[n]))}" for n in names]
-    outs = vlib.coq_eval_sharded(pre, exprs, shard=max(4, len(exprs) // (vlib.NPROC * 2) + 1), name="c18")
+    # own sharding: a shard that exceeds its time limit only loses its own programs (reported as not predicted)
+    from concurrent.futures import ThreadPoolExecutor
+    size = max(4, min(12, len(exprs) // vlib.NPROC + 1))
+    chunks = [(names[i:i + size], exprs[i:i + size]) for i in range(0, len(exprs), size)]
+
+    def one(kc):
+        k, (ns, es) = kc
+        try:
+            return list(zip(ns, vlib.coq_eval(pre, es, name="c18_%d" % k, timeout=600)))
+        except Exception:
+            return []
+
     res = {}
-    for n, o in zip(names, outs):
-        res[n] = dict(leak="leak=1" in o, wf="wf=1" in o, loaded=o.startswith("load=ok"), line=o)
+    with ThreadPoolExecutor(max_workers=vlib.NPROC) as ex:
+        for part in ex.map(one, enumerate(chunks)):
+            for n, o in part:
+                res[n] = dict(leak="leak=1" in o, wf="wf=1" in o, loaded=o.startswith("load=ok"), line=o)
     return res
 
 
@@ -137,7 +150,7 @@ def run(ctx):
         progs["fixed:" + name] = src
     for p in common.corpus_ink():
         progs["corpus:" + os.path.relpath(p, common.INKFILES)] = open(p, encoding="utf-8").read()
-    ngen = 40 if ctx.quick() else 1200
+    ngen = 30 if ctx.quick() else 1200
     try:
         import gen_ink
         for i in range(ngen):
@@ -163,11 +176,19 @@ def run(ctx):
                 cases.append({"id": f"{n}|{k}|{mode}", "story": js, "mode": mode, "cycles": cycles, "history": h,
                               "fuel": 20000, "prog": n})
     res = run_inkleak(exe, cases)
-    pred = model_predictions(ctx, strong, stories)
+    # the model's verdict is needed for every program that was measured to leak; for the others it is
+    # statistics (how tight the over-approximation is): quick tier evaluates a sample of them
+    leaking = {c["prog"] for c, r in zip(cases, res) if r.get("status") == "ok" and r.get("steady_growth", 0) > 0}
+    want = [n for n in stories if n in leaking or n.startswith("fixed:")]
+    rest = [n for n in stories if n not in set(want)]
+    nsample = 40 if ctx.quick() else 300
+    want += rest[::max(1, len(rest) // nsample)]
+    pred = model_predictions(ctx, strong, {n: stories[n] for n in want})
 
     fails = {}
     stats = dict(cases=len(cases), programs=len(stories), leaking_cases=0, predicted_cyclic=sum(1 for v in pred.values() if v["leak"]),
-                 predicted_acyclic=sum(1 for v in pred.values() if not v["leak"]), not_predicted=[n for n in stories if n not in pred],
+                 predicted_acyclic=sum(1 for v in pred.values() if not v["leak"]),
+                 not_predicted=len([n for n in stories if n not in pred]),
                  panics=0, choices_taken=0)
     leaked_progs = set()
     for c, r in zip(cases, res):
